@@ -40,6 +40,7 @@ class VerusResult:
         self.smt_ms = 0
         self.cmd = ""
         self.raw_err = ""
+        self.resource = []         # resource-limit hits: {kind, message, line}
 
 
 def run(path, extra=(), rlimit=None, timeout=900):
@@ -89,9 +90,7 @@ def run(path, extra=(), rlimit=None, timeout=900):
             if msg in head:
                 kind, matched = k, True
                 break
-        if any(r in b for r in RESOURCE):
-            res.undecided = "resource limit: " + head
-            continue
+        is_resource = any(r in b for r in RESOURCE)
         m = re.search(r"-->\s*([^\s:]+):(\d+):(\d+)", b)
         # the first location inside the assembled file
         line = None
@@ -102,6 +101,10 @@ def run(path, extra=(), rlimit=None, timeout=900):
                 # the first one otherwise
                 if kind != "precondition":
                     break
+        if is_resource:
+            # undecided, unless the caller expects this item to fail anyway (vacuity probe twins)
+            res.resource.append({"kind": "rlimit", "message": head, "line": line, "text": b[:600]})
+            continue
         if not matched:
             hard.append(head)
             continue
@@ -114,7 +117,8 @@ def run(path, extra=(), rlimit=None, timeout=900):
         res.undecided = res.undecided or "VIR error"
     if not vr and not res.undecided:
         res.undecided = "no verification results"
-    res.ok = (not res.undecided) and res.errors == 0 and not vr.get("encountered-error", True) and res.verified > 0
+    res.resource_unresolved = list(res.resource)
+    res.ok = (not res.undecided) and not res.resource and res.errors == 0 and not vr.get("encountered-error", True) and res.verified > 0
     if not res.ok and not res.undecided and not res.failures:
         res.undecided = "verus reported errors that could not be classified: " + p.stderr[-400:]
     return res
